@@ -2,6 +2,7 @@
    different licenses (or a license and an operator) are stored under the same lower-cased words. This is the third condition
    of Proofs/TableOk.v, derived from what validate_symbols checks (Proofs/Tables.v). *)
 Require Import Model.Base Model.Expr Model.Split Model.Trie Model.Overlap Model.LicTok Model.BoolParse Model.Licensing.
+Require Import Proofs.WordsSpaces.
 Require Import Proofs.Symbol Proofs.Strings Proofs.Split Proofs.OU Proofs.Tables Proofs.Resplit Proofs.RenderWords
                Proofs.ParseRenderable Proofs.TableOk.
 From Coq Require Import Lia.
@@ -315,28 +316,12 @@ Hypothesis lower_space : forall c, is_space O c = true -> lower_ch O c = [c].
 Hypothesis lower_nospace : forall c, is_space O c = false -> lower_ch O c <> [] /\ nospace O (lower_ch O c).
 Hypothesis kw_plain : forall c, In c [97; 110; 100; 111; 114; 119; 105; 116; 104; 40; 41]%N ->
   is_space O c = false /\ lower_ch O c = [c].
+Hypothesis paren_not_word : is_wordch O 40%N = false /\ is_wordch O 41%N = false.
 Variable T : list entry.
-Hypothesis names_opfree : forall n v, In (n, v) (flat_map (entry_adds O) T) ->
-  forall w, In w (lwords O n) -> is_keyword_str w = false.
 Hypothesis keys_valid : forall e, In e T -> mk_key O (ekey e) = Ok (ekey e).
 Hypothesis accepted : validate_symbols_err O T = false.
 
 Notation names := (entry_names O).
-
-(* no name holds a parenthesis: it would be one of its words *)
-Lemma names_plain n v : In (n, v) (flat_map (entry_adds O) T) -> forall c, In c n -> is_paren c = false.
-Proof.
-  intros Hin c Hc. destruct (is_paren c) eqn:Ep; [|reflexivity]. exfalso.
-  assert (Hc40 : In c [97; 110; 100; 111; 114; 119; 105; 116; 104; 40; 41]%N).
-  { unfold is_paren, c_lpar, c_rpar in Ep. apply orb_true_iff in Ep as [E|E]; apply N.eqb_eq in E; subst c; simpl; tauto. }
-  destruct (kw_plain c Hc40) as [Hs Hl].
-  assert (Hcls : cls_of O c = CParen) by (unfold cls_of; rewrite Hs, Ep; reflexivity).
-  pose proof (paren_is_word O n c Hc Hcls) as Hw.
-  assert (Hlw : In [c] (lwords O n)).
-  { unfold lwords. replace [c] with (lower O [c]) by (unfold lower; cbn [flat_map]; rewrite Hl; reflexivity). apply in_map. exact Hw. }
-  pose proof (names_opfree n v Hin [c] Hlw) as K.
-  unfold is_paren, c_lpar, c_rpar in Ep. apply orb_true_iff in Ep as [E|E]; apply N.eqb_eq in E; subst c; vm_compute in K; discriminate.
-Qed.
 
 (* a name made of plain words: its words are these words *)
 Lemma plain_words ws : Forall (word O) ws -> (forall c, In c (join_sp ws) -> is_paren c = false) ->
@@ -354,36 +339,71 @@ Proof.
   intro C. unfold norm_spaces in Enorm. rewrite C in Enorm. cbn in Enorm. contradiction.
 Qed.
 
-(* every stored name of an entry, seen through its lower-cased words, is one of the names validate_symbols compares *)
+(* a key LicenseSymbol() accepted holds no parenthesis: its words are plain words *)
+Lemma key_plain_words e : In e T -> exists ws, ekey e = join_sp ws /\ Forall (word O) ws /\ ws <> [] /\ Forall (ctext_word O) ws.
+Proof.
+  intro He. set (k := ekey e).
+  destruct (proj1 (mk_key_iff O k k) (keys_valid e He)) as [[Kne [Sne [Val Nkw]]] Enorm].
+  set (ws := split_ws O (strip O k)).
+  assert (Hws : Forall (word O) ws) by (apply split_words).
+  assert (Ej : k = join_sp ws) by (rewrite Enorm at 1; reflexivity).
+  assert (Wne : ws <> []) by (intro C; rewrite C in Ej; cbn in Ej; contradiction).
+  assert (Estrip : strip O k = k) by (rewrite Ej at 1; rewrite (strip_join O ws Hws); symmetry; exact Ej).
+  rewrite Estrip in Val.
+  exists ws. split; [exact Ej|]. split; [exact Hws|]. split; [exact Wne|].
+  apply Forall_forall. intros w Hw. rewrite Forall_forall in Hws. destruct (Hws w Hw) as [Wn Ns]. split; [exact Wn|].
+  intros c Hc. assert (Hck : In c k) by (rewrite Ej; apply (join_chars ws w c Hw Hc)).
+  rewrite forallb_forall in Val. specialize (Val c Hck).
+  unfold nospace in Ns. rewrite forallb_forall in Ns. specialize (Ns c Hc). apply negb_true_iff in Ns.
+  unfold cls_of. rewrite Ns. destruct (is_paren c) eqn:Ep; [|reflexivity]. exfalso.
+  unfold valid_key_char in Val. rewrite Ns in Val. destruct paren_not_word as [P1 P2].
+  unfold is_paren, c_lpar, c_rpar in Ep. apply orb_true_iff in Ep as [Ep|Ep]; apply N.eqb_eq in Ep; subst c;
+    [rewrite P1 in Val | rewrite P2 in Val]; cbn in Val; discriminate.
+Qed.
+
+Lemma lower_ne w : w <> [] -> lower O w <> [].
+Proof.
+  destruct w as [|c w]; [contradiction|]. intros _. change (lower O (c :: w)) with (lower_ch O c ++ lower O w).
+  destruct (is_space O c) eqn:Ec.
+  - rewrite (lower_space c Ec). discriminate.
+  - destruct (lower_nospace c Ec) as [Hn _]. destruct (lower_ch O c); [contradiction | discriminate].
+Qed.
+
+Lemma contig_nonempty : forall ps start p, contig start ps -> In p ps -> ptext p <> [].
+Proof.
+  induction ps as [|q ps IH]; intros start p Hc Hp; [destruct Hp|]. destruct Hc as [_ [Hq Hc]].
+  destruct Hp as [<-|Hp]; [exact Hq | apply (IH _ p Hc Hp)].
+Qed.
+
+Lemma lwords_nonempty s w : In w (lwords O s) -> w <> [].
+Proof.
+  unfold lwords, words. intro Hw. apply in_map_iff in Hw as [w0 [<- Hw0]]. apply in_map_iff in Hw0 as [p [<- Hp]].
+  apply filter_In in Hp as [Hp _]. apply lower_ne. apply (contig_nonempty (pieces O s) 0 p (pieces_contig O s) Hp).
+Qed.
+
+Lemma join_sp_ne ws : ws <> [] -> (forall w, In w ws -> w <> []) -> join_sp ws <> [].
+Proof.
+  destruct ws as [|x r]; [contradiction|]. intros _ H. pose proof (H x (or_introl eq_refl)) as Hx.
+  unfold join_sp. cbn [join]. destruct r; [exact Hx|]. destruct x; [contradiction | discriminate].
+Qed.
+
+(* every stored name of an entry, seen through its lower-cased words, is one of the names validate_symbols compares
+   (an alias is stored with its white space normalised: that keeps its words, parentheses or not) *)
 Lemma stored_name_in_names e n v : In e T -> In (n, v) (entry_adds O e) -> lwords O n <> [] ->
   In (join_sp (lwords O n)) (names e).
 Proof.
   intros He Hn Hne.
-  assert (Hflat : In (n, v) (flat_map (entry_adds O) T)) by (apply in_flat_map; exists e; split; assumption).
-  pose proof (names_plain n v Hflat) as Hpl.
   unfold entry_adds in Hn. destruct Hn as [Hn|Hn].
-  - inversion Hn; subst n v. destruct (key_words e He) as [ws [Ek [Hws Wne]]].
-    pose proof Hpl as Hpl'. rewrite Ek in Hpl'. pose proof (plain_words ws Hws Hpl') as Hct.
+  - inversion Hn; subst n v. destruct (key_plain_words e He) as [ws [Ek [Hws [Wne Hct]]]].
     assert (El : lwords O (ekey e) = map (lower O) ws) by (unfold lwords; rewrite Ek, (words_join O sp_is_space ws Hct); reflexivity).
     rewrite El. replace (join_sp (map (lower O) ws)) with (keyl O e); [apply keyl_in_names|].
     unfold keyl. rewrite Ek, (strip_join O ws Hws). apply (lower_join O sp_is_space lower_space).
   - apply in_flat_map in Hn as [a [Ha Hn]]. destruct a as [|a0 a1]; [destruct Hn|]. destruct Hn as [Hn|[]]. inversion Hn; subst n v.
-    set (a := a0 :: a1) in *. set (ws := split_ws O a).
-    assert (Hws : Forall (word O) ws) by apply split_words.
-    assert (En : norm_spaces O a = join_sp ws) by reflexivity.
-    pose proof Hpl as Hpl'. rewrite En in Hpl'. pose proof (plain_words ws Hws Hpl') as Hct.
-    assert (El : lwords O (norm_spaces O a) = map (lower O) ws) by (unfold lwords; rewrite En, (words_join O sp_is_space ws Hct); reflexivity).
-    assert (Ea : lwords O a = map (lower O) ws).
-    { unfold lwords. rewrite (words_split O a); [reflexivity|]. intros c Hc Hs. apply Hpl. rewrite En.
-      destruct (split_acc_covers O a [] c (or_intror Hc) Hs eq_refl) as [w [Hw Hcw]]. apply (join_chars ws w c Hw Hcw). }
-    rewrite El in *.
+    set (a := a0 :: a1) in *.
+    rewrite (lwords_norm_spaces O sp_is_space a) in *.
     unfold entry_names. apply (ou_in str_eqb str_eqb_eq). right. apply in_or_app. left. apply filter_In. split.
-    + replace (join_sp (map (lower O) ws)) with (norm_alias O a) by (unfold norm_alias; rewrite Ea; reflexivity). apply in_map. exact Ha.
-    + 
-      assert (Wl : Forall (word O) (map (lower O) ws)).
-      { apply Forall_forall. intros w Hw. apply in_map_iff in Hw as [w0 [<- Hw0]]. rewrite Forall_forall in Hws.
-        apply (lower_word O lower_nospace w0 (Hws w0 Hw0)). }
-      pose proof (join_sp_nonempty O (map (lower O) ws) Wl Hne) as J. destruct (join_sp (map (lower O) ws)); [contradiction | reflexivity].
+    + change (join_sp (lwords O a)) with (norm_alias O a). apply in_map. exact Ha.
+    + pose proof (join_sp_ne (lwords O a) Hne (lwords_nonempty a)) as J. destruct (join_sp (lwords O a)); [contradiction | reflexivity].
 Qed.
 
 Lemma keyl_nonempty e : In e T -> keyl O e <> [].
@@ -443,11 +463,16 @@ Proof.
   - destruct (keyword_lwords n1 v1 K1) as [L1 _], (keyword_lwords n2 v2 K2) as [L2 _]. rewrite L1, L2 in E. inversion E; subst n2.
     apply (keyword_value n1 v1 v2 K1 K2).
   - exfalso. destruct (keyword_lwords n1 v1 K1) as [L1 Kw]. rewrite L1 in E.
-    assert (Hin : In n1 (lwords O n2)) by (rewrite <- E; left; reflexivity).
-    rewrite (names_opfree n2 v2 E2 n1 Hin) in Kw. discriminate.
+    apply in_flat_map in E2 as [e2 [He2 Hn2]].
+    assert (Hne2 : lwords O n2 <> []) by (rewrite <- E; discriminate).
+    pose proof (stored_name_in_names e2 n2 v2 He2 Hn2 Hne2) as A2. rewrite <- E in A2. cbn [join_sp join] in A2.
+    assert (Amb : ambiguous O T) by (right; left; exists e2, n1; split; [exact He2 | split; [exact A2 | exact Kw]]).
+    apply (validate_symbols_ambiguous O T keyl_nonempty) in Amb. rewrite accepted in Amb. discriminate.
   - exfalso. destruct (keyword_lwords n2 v2 K2) as [L2 Kw]. rewrite L2 in E.
-    assert (Hin : In n2 (lwords O n1)) by (rewrite E; left; reflexivity).
-    rewrite (names_opfree n1 v1 E1 n2 Hin) in Kw. discriminate.
+    apply in_flat_map in E1 as [e1 [He1 Hn1]].
+    pose proof (stored_name_in_names e1 n1 v1 He1 Hn1 Hne) as A1. rewrite E in A1. cbn [join_sp join] in A1.
+    assert (Amb : ambiguous O T) by (right; left; exists e1, n2; split; [exact He1 | split; [exact A1 | exact Kw]]).
+    apply (validate_symbols_ambiguous O T keyl_nonempty) in Amb. rewrite accepted in Amb. discriminate.
   - apply in_flat_map in E1 as [e1 [He1 Hn1]]. apply in_flat_map in E2 as [e2 [He2 Hn2]].
     rewrite (entry_value O e1 n1 v1 Hn1), (entry_value O e2 n2 v2 Hn2).
     pose proof (stored_name_in_names e1 n1 v1 He1 Hn1 Hne) as A1.
@@ -506,7 +531,7 @@ Theorem accepted_table_round_trip text wrap e : parse_tokens O T false false tex
 Proof.
   destruct built_parts as [HA HV]. pose proof (as_symbols_keys raw T HA) as KV.
   apply (plain_table_round_trip O sp_is_space upper_plain lower_kw kw_plain paren_not_word T names_opfree KV).
-  apply (accepted_names_unambiguous O sp_is_space lower_space lower_nospace kw_plain T names_opfree KV HV).
+  apply (accepted_names_unambiguous O sp_is_space lower_space lower_nospace kw_plain paren_not_word T KV HV).
 Qed.
 
 Theorem accepted_table_round_trip_derived text wrap e e' : parse_tokens O T false false text = Ok e ->
@@ -515,7 +540,7 @@ Theorem accepted_table_round_trip_derived text wrap e e' : parse_tokens O T fals
 Proof.
   destruct built_parts as [HA HV]. pose proof (as_symbols_keys raw T HA) as KV.
   apply (plain_table_round_trip_derived O sp_is_space upper_plain lower_kw kw_plain paren_not_word T names_opfree KV).
-  apply (accepted_names_unambiguous O sp_is_space lower_space lower_nospace kw_plain T names_opfree KV HV).
+  apply (accepted_names_unambiguous O sp_is_space lower_space lower_nospace kw_plain paren_not_word T KV HV).
 Qed.
 
 End AcceptedTables.
@@ -527,12 +552,11 @@ Variable O : oracle.
 Hypothesis sp_is_space : is_space O 32%N = true.
 Hypothesis kw_plain : forall c, In c [97; 110; 100; 111; 114; 119; 105; 116; 104; 40; 41]%N ->
   is_space O c = false /\ lower_ch O c = [c].
+Hypothesis paren_not_word : is_wordch O 40%N = false /\ is_wordch O 41%N = false.
 Hypothesis lower_space : forall c, is_space O c = true -> lower_ch O c = [c].
 Hypothesis lower_nospace : forall c, is_space O c = false -> lower_ch O c <> [] /\ nospace O (lower_ch O c).
 Variables (raw T : list entry).
 Hypothesis built : new_licensing O raw = Ok T.
-Hypothesis names_opfree : forall n v, In (n, v) (flat_map (entry_adds O) T) ->
-  forall w, In w (lwords O n) -> is_keyword_str w = false.
 
 (* the words of a name of the table are stored with the symbol of its entry *)
 Theorem accepted_name_stored e n v : In e T -> In (n, v) (entry_adds O e) -> lwords O n <> [] ->
@@ -545,7 +569,7 @@ Proof.
   - apply in_or_app. right. exact Hflat.
   - intro C. subst n. apply Hne. reflexivity.
   - exact Hne.
-  - intros n' v' H' E'. apply (accepted_names_unambiguous O sp_is_space lower_space lower_nospace kw_plain T names_opfree KV HV n' v' n _ H').
+  - intros n' v' H' E'. apply (accepted_names_unambiguous O sp_is_space lower_space lower_nospace kw_plain paren_not_word T KV HV n' v' n _ H').
     + apply in_or_app. right. exact Hflat.
     + rewrite E'. exact Hne.
     + exact E'.
